@@ -1016,7 +1016,10 @@ impl SolarDay {
   pub fn get_solar_week(&self, start: usize) -> SolarWeek {
     let y: isize = self.get_year();
     let m: usize = self.get_month();
-    SolarWeek::from_ym(y, m, ((self.day + SolarDay::from_ymd(y, m, 1).get_week().next(-(start as isize)).get_index()) as f64 / 7.0).ceil() as usize - 1, start)
+    let first_day: SolarDay = SolarDay::from_ymd(y, m, 1);
+    // 当月第几天（1582年10月日期不连续，不能直接用日）
+    let position: usize = self.subtract(first_day) as usize + 1;
+    SolarWeek::from_ym(y, m, ((position + first_day.get_week().next(-(start as isize)).get_index()) as f64 / 7.0).ceil() as usize - 1, start)
   }
 
   /// 节气
